@@ -74,7 +74,37 @@ def run(ctx, repo, tier):
                   "array has n_t*n_o*n_b rows and 7 columns", where, "np.full((len(self), 7), np.nan)",
                   witness=" x ".join(d.pretty() for d in dims))
         pos_store = quat_store = None
+        def vectorised_store(frames, idx, val):
+            """result[:, a:b] = V with V a 2-D array whose row axis is (outer, inner) major->minor: the same as the two nested loops
+            `for outer: for inner: result[outer*len(inner)+inner][a:b] = V[outer, inner]`"""
+            full = lambda x: isinstance(x, Term) and x.op == "slice" and all(isinstance(y, Const) and y.v is None for y in x.args)
+            if not (isinstance(idx, TupleV) and len(idx.items) == 2 and full(idx.items[0]) and isinstance(idx.items[1], Term) and idx.items[1].op == "slice"):
+                return None
+            if isinstance(val, ObjV) and val.ext == "ndarray":
+                val = T.ndarray_value(interp, val)
+            if not (isinstance(val, Grid) and val.ndim == 2 and len(val.dims[0]) in (2, 3) and len(val.dims[1]) == 1):
+                return None
+            if any(f.kind in ("loop", "guard") for f in frames):
+                return None
+            class _F:
+                kind = "loop"
+            fo, fi_ = _F(), _F()
+            elem = val.elem
+            if len(val.dims[0]) == 3:
+                # two outer axes (a1 major, a2 minor) are one running index P = a1*e2 + a2:  a1 = P div e2, a2 = P mod e2
+                (a1, e1), (a2, e2), inner = val.dims[0]
+                fo.idx, fo.extent = interp.fresh_idx("P"), e1 * e2
+                P_ = Poly.atom(fo.idx)
+                elem = subst(elem, {a1: Poly.app("div", P_, e2), a2: Poly.app("mod", P_, e2)})
+                fi_.idx, fi_.extent = inner
+            else:
+                (fo.idx, fo.extent), (fi_.idx, fi_.extent) = val.dims[0]
+            row = Poly.atom(fo.idx) * fi_.extent + Poly.atom(fi_.idx)
+            return (fo, fi_), TupleV([Num(row), idx.items[1]]), Grid([val.dims[1]], elem)
         for frames, idx, val, aug, st in arr.stores:
+            vs_ = vectorised_store(frames, idx, val)
+            if vs_ is not None:
+                frames, idx, val = vs_
             if not (isinstance(idx, TupleV) and len(idx.items) == 2 and isinstance(idx.items[0], Num) and isinstance(idx.items[1], Term)
                     and idx.items[1].op == "slice"):
                 ctx.inconclusive("LAYOUT", "C09.array.store", "store into the array not recognised", where, witness=vstr(idx)[:200])
